@@ -13,6 +13,7 @@ import GojaModel.C15.Invariant
 import GojaModel.C15.Sim
 import GojaModel.C15.Observe
 import GojaModel.C15.Deliver
+import GojaModel.C15.Commute
 import GojaModel.C15.Drf
 
 namespace GojaModel.C15.Props
@@ -348,6 +349,23 @@ theorem interleaved_executions_project {s s' : S} {ls : List Label} (h : run s l
     (hf : s.flag = false) :
     obs s ls = List.replicate (pollCount (beforeStore ls)) false ++ List.replicate (pollCount (fromStore ls)) true :=
   obs_delivered_at h hq hf
+
+/-- LABEL-LEVEL form of the projection, within a poll-free stretch: wherever the four atomic actions of an Interrupt(v) by
+    goroutine t fall among runner actions that touch no shared cell, the execution has the same result (same final
+    state, or equally impossible) as the canonical one in which all four are taken together immediately before the
+    runner's next poll — the placement the interpreter emits for `Cfg.ext`. -/
+theorem interrupt_placement_irrelevant (s : S) (t v : Nat) (b1 b2 b3 b4 rest : List Label)
+    (h1 : ∀ b ∈ b1, runnerLocal b = true) (h2 : ∀ b ∈ b2, runnerLocal b = true)
+    (h3 : ∀ b ∈ b3, runnerLocal b = true) (h4 : ∀ b ∈ b4, runnerLocal b = true) :
+    run s (Label.iLock t v :: b1 ++ Label.iWrite t :: b2 ++ Label.iStore t :: b3 ++ Label.iUnlock t :: b4 ++ rest) =
+    run s (b1 ++ b2 ++ b3 ++ b4 ++ [Label.iLock t v, Label.iWrite t, Label.iStore t, Label.iUnlock t] ++ rest) :=
+  interrupt_actions_commute_to_next_poll s t v b1 b2 b3 b4 rest h1 h2 h3 h4
+
+/-- … and across polls: taking the lock, writing the value and releasing the lock commute with the runner's poll (only
+    the store to `interrupted` does not), so what decides the delivery point is the position of the store alone. -/
+theorem non_store_actions_commute_with_poll (s : S) (a : Label) (ha : isI a = true) (hns : isStoreL a = false) :
+    run s [a, .rPoll] = run s [.rPoll, a] :=
+  comm_i_poll s a ha hns
 
 /-- … and the interpreter's own runs are among them: what the polls of an interpreter run observe is `false` n times,
     then `true`, with n read off its emitted trace. -/
